@@ -81,7 +81,9 @@ def cases(tier, seed):
         for trig in ("submit", "complete", "fail"):
             out.append({"name": "loop.wake-instr/%s/%s" % (">".join(layers), trig), "kind": "wake", "layers": layers,
                         "trigger": trig, "cap": None, "gran": "instr"})
-    for layers in ([["timeout"], ["map", "timeout"], ["timeout", "map"]] + ([["timeout", "timeout"], ["throttle", "timeout"]] if tier == "thorough" else [])):
+    # (no throttle layer below the timeout: a cancel arriving while the throttle thread hands the job over is refused,
+    # which the timeout layer - like for a running future - accepts; the future then legitimately outlives its deadline)
+    for layers in ([["timeout"], ["map", "timeout"], ["timeout", "map"]] + ([["timeout", "timeout"], ["timeout", "map", "map"]] if tier == "thorough" else [])):
         for trig in ("submit", "complete", "cancel"):
             for gran in (None, "instr"):
                 out.append({"name": "loop.expire%s/%s/%s" % ("-instr" if gran else "", ">".join(layers), trig), "kind": "expire",
